@@ -9,6 +9,8 @@ mod gen;
 mod c07;
 mod cmp;
 mod c01;
+mod c02;
+mod c08;
 
 /// lexpr is built with its default feature `fast-float-parsing` in this crate
 pub const FAST_FLOAT: bool = true;
@@ -28,6 +30,10 @@ fn main() {
     let mut out = match args[1].as_str() {
         "c07" => c07::run(&cfg),
         "c07-replay" => c07::replay_case(&cfg),
+        "c02" => c02::run(&cfg),
+        "c02-replay" => c02::replay_case(&cfg),
+        "c08" => c08::run(&cfg),
+        "c08-replay" => c08::replay_case(&cfg),
         "c01" => c01::run(&cfg),
         "c01-replay" => c01::replay_case(&cfg),
         x => {
